@@ -79,6 +79,82 @@ def run(tier):
         ev[i]["V"][0] += 40
         return i + 1
     mut("POO: score off by 6e-4", e2, ("poo.score",), module="Trace_Wrap.tla", base=w)
+    # --- SequOOL
+    from .. import zoomsession as Z
+    from .. import vroomsession as V
+    from . import paircommon as PC2
+    q = SS.run_soo({"id": 4, "algo": "SequOOL", "kind": "bin", "K": 2, "D": 1, "box": [[0.0, 1.0]], "n": 40, "T": 40, "prm": {}, "pattern": "g01", "seed": 5})
+    def q1(ev):
+        i = first(ev, lambda e: e["k"] == "recv" and e["fc"], 6)
+        ev[i]["fc"][0][0] += 1          # the reward is recorded for the neighbouring cell
+        return i + 1
+    mut("SequOOL: reward recorded for the neighbouring cell", q1, ("credit.",), module="Trace_Seq.tla", base=q)
+    def q2(ev):
+        i = first(ev, lambda e: e["k"] == "recv" and e["fc"], 1)
+        j = first(ev, lambda e: e["k"] == "recv" and e["fc"], i + 1)
+        ev[i]["r"], ev[i]["fc"][0][2] = -5, -5      # the two first rewards are made very bad and very good: the cell opened next must change
+        ev[j]["r"], ev[j]["fc"][0][2] = 90, 90
+        if ev[i]["fc"][0][0] > ev[j]["fc"][0][0]:
+            ev[i]["r"], ev[i]["fc"][0][2], ev[j]["r"], ev[j]["fc"][0][2] = 90, 90, -5, -5
+        return j + 1
+    mut("SequOOL: rewards changed so that another cell is best", q2, ("seq.not-best-unopened", "seq."), module="Trace_Seq.tla", base=q)
+    # --- Zooming
+    z = Z.run_zoom({"id": 5, "algo": "Zooming", "kind": "bin", "K": 2, "D": 1, "box": [[0.0, 1.0]], "n": 60, "T": 60, "prm": {"nu": 4, "rho": 0.5}, "pattern": "g01", "seed": 5})
+    def z1(ev):
+        i = first(ev, lambda e: e["k"] == "recv" and e.get("ac"), 10)
+        ev[i]["ac"][0][2] += 1          # the played arm's count jumps by two
+        return i + 1
+    mut("Zooming: played arm's count +2", z1, ("zoom.",), module="Trace_Zoom.tla", base=z)
+    def z2(ev):
+        i = first(ev, lambda e: e["k"] == "recv" and e.get("an"), 1)
+        ev[i]["an"] = []                # a refinement that activates no arm for the new cell
+        ev[i]["pts"] = []
+        return i + 1
+    mut("Zooming: no arm activated for a new cell", z2, ("zoom.",), module="Trace_Zoom.tla", base=z)
+    # --- VROOM
+    v = V.run_vroom({"id": 6, "algo": "VROOM", "kind": "bin", "K": 2, "D": 1, "box": [[0.0, 1.0]], "n": 40, "T": 40, "prm": {"h_max": 5}, "pattern": "g01", "seed": 5})
+    def v1(ev):
+        i = first(ev, lambda e: e["k"] == "recv" and len(e["fc"]) >= 3, 3)
+        del ev[i]["fc"][1]              # one cell of the sampling path is not credited
+        return i + 1
+    mut("VROOM: one cell of the sampled path not credited", v1, ("vroom.credit-not-a-path", "credit."), module="Trace_VROOM.tla", base=v)
+    # --- StroquOOL
+    so = SS.run_soo({"id": 7, "algo": "StroquOOL", "kind": "bin", "K": 2, "D": 1, "box": [[0.0, 1.0]], "n": 100, "T": 30, "prm": {}, "pattern": "g01", "seed": 5})
+    def s1(ev):
+        i = first(ev, lambda e: e["k"] == "recv" and e["fc"], 6)
+        ev[i]["fc"][0][3] += 3          # the recorded sum is not the sum of the rewards
+        return i + 1
+    mut("StroquOOL: recorded reward differs from the reward", s1, ("credit.",), module="Trace_Stro.tla", base=so)
+    # --- plain session (C01): a point outside the box
+    se = S.run_session({"id": 8, "algo": "SOO", "kind": "bin", "K": 2, "D": 1, "box": [[0.0, 1.0]], "n": 40, "T": 40, "prm": {}, "pattern": "noisy", "seed": 5})
+    def p1(ev):
+        i = first(ev, lambda e: e["k"] == "pull", 8)
+        ev[i]["pt"] = [10 ** 6]         # a rank beyond the upper end of the box
+        return i + 1
+    mut("session: a pulled point beyond the box", p1, ("call.outside-box",), module="Trace_Session.tla", base=se)
+    def p2(ev):
+        i = first(ev, lambda e: e["k"] == "end", 8)
+        ev[i]["dom_same"] = 0
+        return i + 1
+    mut("session: the user's domain differs at the end", p2, ("end.domain-mutated",), module="Trace_Session.tla", base=se)
+    # --- pair comparison (C14-C16)
+    se2 = copy.deepcopy(se)
+    def mutpair(name, fn, want):
+        b = copy.deepcopy(se2)
+        at = fn(b["ev"])
+        pr = PC2.pair(len(cases) + 10, se, b)
+        cases.append((name, "Trace_Pair.tla", pr, want, at))
+    mutpair("pair: identical runs", lambda ev: 0, ("ok",))
+    def r1(ev):
+        i = first(ev, lambda e: e["k"] == "pull" and "rel" in e, 12)
+        ev[i]["rel"][0] += 1            # 2^-30 of the box
+        return i + 1
+    mutpair("pair: one point moved by 2^-30 of the box", r1, ("pair.position",))
+    def r2(ev):
+        i = first(ev, lambda e: e["k"] == "mk", 12)
+        ev[i]["p"] += 1
+        return i + 1
+    mutpair("pair: one expansion under a different cell", r2, ("pair.structure",))
     bad = 0
     print("%-58s %-34s %s" % ("corruption", "verdict", "as expected"))
     for (name, module, tr, want, at) in cases:
